@@ -11,14 +11,14 @@
    inside Magn (C12F lifted to the store); (3) refutations with closed witnesses of what the code does not guarantee.
    What is NOT proved (declared gap): that the bounds computed by FloatLinEq/Le (binary64 accumulation and division) stay
    inside Magn and close to their exact-rational reading, hence `float_lin_le_fixpoint_within_tol` is only validated by the
-   exact-rational judge of the check (vlib/fmodel.py), not proved; the runtime-API lowering of float constraints is not
-   modelled (`float_lowering_covers` is replaced by the refutation float_cmp_ignored_refuted and the structural family
-   flower_cover). *)
+   exact-rational judge of the check (vlib/fmodel.py), not proved; of the runtime-API lowering only the
+   decision IntLin* / FloatLin* is a Coq function (`float_lowering_covers`, tied by family flower_cover); expression folding
+   and auxiliary variables are C10's subject. *)
 From Coq Require Import ZArith Bool Reals List Lia.
 Import ListNotations.
 From Flocq Require Import Core.Core IEEE754.BinarySingleNaN IEEE754.Binary IEEE754.Bits.
 Require Import Selen.Model.Prelude Selen.Model.Dom.
-Require Import Selen.Model.B64 Selen.Model.FloatInterval Selen.Model.CtxFloat Selen.Model.FloatStore Selen.Model.FloatProps Selen.Model.FloatSearch.
+Require Import Selen.Model.B64 Selen.Model.FloatInterval Selen.Model.CtxFloat Selen.Model.FloatStore Selen.Model.FloatProps Selen.Model.FloatSearch Selen.Model.FloatDispatch.
 Require Import Selen.Proofs.B64Facts Selen.Proofs.FloatIntervalProofs Selen.Proofs.FloatPropsProofs.
 
 (* ---------------------------------------------------------------- mixed_ints_exact *)
@@ -63,17 +63,37 @@ Proof. intros l i i' evs W H R. destruct (float_value_in_declared_bounds l i i' 
 Print Assumptions float_values_in_bounds.
 
 (* ---------------------------------------------------------------- refutations (closed witnesses / general no-op lemmas) *)
-(* "never silently ignored" is FALSE: m.new(x.le(y)) with two float variables is lowered to IntLinLe([1,-1],[x,y],0)
-   (all literals are integers), whose prune is the identity on EVERY store in which y is a float variable. *)
-Theorem float_cmp_ignored_refuted : forall s ev x y ix iy k, x <> y -> fget s x = VF ix -> fget s y = VF iy ->
-  prune_ilin_le_mixed [1; -1]%Z [x; y] k (s, ev) = Some (s, ev).
-Proof. exact float_cmp_lowered_to_intlin_is_noop. Qed.
-Print Assumptions float_cmp_ignored_refuted.
+(* float_lowering_covers (after the repair): a linear constraint AST that ranges over at least one float variable is
+   materialised as a FloatLin* propagator whatever its literals are; IntLin* is chosen only for integer literals over integer
+   variables.  linear_lowering is compared with the implementation's lowered model on every case of family flower_cover. *)
+Theorem float_lowering_covers : forall int_literals,
+  linear_lowering int_literals true = KFloatLin /\
+  (forall any_float, linear_lowering int_literals any_float = KIntLin -> int_literals = true /\ any_float = false).
+Proof. intro il. split. unfold linear_lowering. destruct il; reflexivity.
+  intros af. unfold linear_lowering. destruct il, af; simpl; intro H; try discriminate; auto. Qed.
+Print Assumptions float_lowering_covers.
 
-(* FloatLinLe (hence every float-coefficient <=, >=, <, > row) never tightens nor checks an integer variable *)
-Theorem int_in_floatlin_refuted : forall c v d coeff k, fget (fst c) v = VI d -> prune_flin_le [coeff] [v] k c = Some c.
-Proof. exact flin_le_ignores_int_var. Qed.
-Print Assumptions int_in_floatlin_refuted.
+(* Why the repair was needed (the unrepaired lowering linear_lowering_prefix chose IntLin* for m.new(x.le(y)) over two float
+   variables): IntLinLe([1,-1],[x,y],k) is the identity on EVERY store in which y is a float variable. *)
+Theorem float_cmp_ignored_prefix_refuted :
+  linear_lowering_prefix true true = KIntLin /\
+  (forall s ev x y ix iy k, x <> y -> fget s x = VF ix -> fget s y = VF iy ->
+     prune_ilin_le_mixed [1; -1]%Z [x; y] k (s, ev) = Some (s, ev)).
+Proof. split. reflexivity. exact float_cmp_lowered_to_intlin_is_noop. Qed.
+Print Assumptions float_cmp_ignored_prefix_refuted.
+
+(* FloatLinLe and integer variables.  BEFORE the repair "FloatLinLe bounds integer variables too" a row over an integer variable
+   was the identity (prune_flin_le_prefix); AFTER it the row bounds the integer variable (floor / ceiling of the float bound):
+   1.5*x <= 4 fails on x in {3,4,5} and leaves {0,1,2} of {0..5}.  (mixed_ints_exact holds for both versions.) *)
+Theorem int_in_floatlin_prefix_refuted : forall c v d coeff k, fget (fst c) v = VI d -> prune_flin_le_prefix [coeff] [v] k c = Some c.
+Proof. exact flin_le_prefix_ignores_int_var. Qed.
+Print Assumptions int_in_floatlin_prefix_refuted.
+Theorem flin_le_bounds_int_var :
+  prune_flin_le [of_bits 0x3ff8000000000000] [0%nat] (of_bits 0x4010000000000000) ([VI [3; 4; 5]%Z], []) = None /\
+  obs_ctx (prune_flin_le [of_bits 0x3ff8000000000000] [0%nat] (of_bits 0x4010000000000000) ([VI [0; 1; 2; 3; 4; 5]%Z], []))
+    = Some ([[0; 0; 1; 2]%Z], [0%nat]).
+Proof. exact flin_le_bounds_int_var_ok. Qed.
+Print Assumptions flin_le_bounds_int_var.
 
 (* FloatLinNe: inert while two variables are not fixed in its own sense; and two ASSIGNED float variables (one step wide)
    are not fixed in that sense: x - y != 0 accepts x = y = 0 *)
